@@ -1339,3 +1339,444 @@ class C18(TraceCheck):
 
 
 E.register(C18())
+
+
+# ---------------------------------------------------------------------------------------
+NAME_TABLE = {
+    "libsnark": ("pysnark.libsnark.backend", W.BN254),
+    "libsnarkgg": ("pysnark.libsnark.backendgg", W.BN254),
+    "qaptools": ("pysnark.qaptools.backend", W.BN254),
+    "snarkjs": ("pysnark.snarkjsbackend", W.BN254),
+    "zkinterface": ("pysnark.zkinterface.backend", W.BN254),
+    "zkifbellman": ("pysnark.zkinterface.backendbellman", W.BLS12_381),
+    "zkifbulletproofs": ("pysnark.zkinterface.backendbulletproofs", W.ED25519),
+    "nobackend": ("pysnark.nobackend", 10000),
+}
+DOC_ORDER = ["libsnark", "libsnarkgg", "qaptools", "snarkjs", "zkinterface", "zkifbellman", "zkifbulletproofs",
+             "nobackend"]
+NEEDS = {"libsnark": "libsnark", "libsnarkgg": "libsnark", "qaptools": "qaptools", "zkinterface": "flatbuffers",
+         "zkifbellman": "flatbuffers", "zkifbulletproofs": "flatbuffers"}
+
+
+def c19_configs():
+    """The whole finite configuration space (deterministic order)."""
+    out = []
+    envs = DOC_ORDER + ["bogus", None]
+    pres = [[]] + [[n] for n in DOC_ORDER] + [["zkifbellman", "snarkjs"], ["snarkjs", "zkifbellman"],
+                                               ["libsnarkgg", "nobackend"]]
+    loadables = []
+    for ls in (0, 1):
+        for fb in (0, 1):
+            for qt in (0, 1):
+                loadables.append({"libsnark": bool(ls), "flatbuffers": bool(fb), "qaptools": bool(qt)})
+    for env in envs:
+        for pre in pres:
+            for lo in loadables:
+                for ipy in (False, True):
+                    if ipy and (pre or env in DOC_ORDER):
+                        continue   # ipython only matters for auto-detection
+                    out.append({"env": env, "pre": pre, "loadable": lo, "ipython": ipy})
+    return out
+
+
+class C19(TraceCheck):
+    name = "C19"
+    prop = "C19"
+    props = ()
+    budget = {"quick": 320, "thorough": 976}
+    exhaustive_tiers = ("thorough",)
+    components = REAL_EXIT
+    run_cap_s = 300
+    rule = ("configuration = (PYSNARK_BACKEND in 8 names + unknown + unset) x (pre-imported backend modules: "
+            "none, each of the 8, three pairs in both orders) x (loadable subset of {libsnark stub, flatbuffers "
+            "stub, qaptools stub binaries}; unloadable ones fail with ImportError / missing executable) x "
+            "ipython on/off; one fresh interpreter per configuration, followed by a three-statement traced "
+            "program. oracle from the statement: pre-import wins; else a known name selects exactly that "
+            "module or the interpreter dies with a traceback; unknown name => message, then auto-detect in "
+            "the documented order; reported name <-> (module receiving the constraints, modulus in effect, "
+            "Groth flag) per a table in the checker; complete interface. quick samples the space, thorough "
+            "sweeps all of it (exhaustive). non-trivial = distinct configurations judged")
+
+    def gen(self, rng, i, tier):
+        space = c19_configs()
+        if tier == "thorough":
+            return dict(space[i % len(space)], index=i % len(space))
+        j = rng.randrange(len(space))
+        return dict(space[j], index=j)
+
+    def run(self, case):
+        lo = case["loadable"]
+        pp = [W.REPO]
+        if lo["flatbuffers"]:
+            pp.append(os.path.join(W.STUBS, "py"))
+        if lo["libsnark"]:
+            pp.append(os.path.join(W.STUBS, "py_libsnark"))
+        env = X.child_env(None, stubs=False)
+        env["PYTHONPATH"] = ":".join(pp)
+        if not lo["qaptools"]:
+            env["QAPTOOLS_BIN"] = "/nonexistent-qaptools-bin"
+        if case["env"] is not None:
+            env["PYSNARK_BACKEND"] = case["env"]
+        importfail = [m for m in ("flatbuffers", "libsnark") if not lo[m]]
+        cfg = {"preimport": [NAME_TABLE[n][0] for n in case["pre"]], "ipython": case["ipython"],
+               "importfail": importfail, "inputs": []}
+        body = ("_x = PrivVal(3); _y = PubVal(4); _z = _x * _y\n(_z - 12).assert_zero()\n"
+                "_side({'ev': 'traced', 'trace': _dump(), 'groth': getattr(sys.modules.get('pysnark.libsnark.backend'), "
+                "'use_groth', None), 'nconstraints': (len(_b.pb.constraints) if hasattr(_b, 'pb') else None)})\n"
+                "_rt.autoprove = False\n")
+        r = X.run_child(body, cfg, env)
+        if r["rc"] == "timeout":
+            raise W.HarnessError("child timed out")
+        ev = r["events"]
+        imported = [e for e in ev if e["ev"] == "imported"]
+        pre_ok = [e["module"] for e in ev if e["ev"] == "preimport" and e["ok"]]
+        pre_names = [n for n in case["pre"] if NAME_TABLE[n][0] in pre_ok]
+        viol = []
+        site0 = {"env": "known" if case["env"] in DOC_ORDER else ("unknown" if case["env"] else "unset"),
+                 "pre": "none" if not case["pre"] else ("one" if len(case["pre"]) == 1 else "two")}
+
+        def add(oracle, detail, **extra):
+            s = dict(site0)
+            s.update(extra)
+            viol.append({"property": "C19", "oracle": oracle, "site": s, "detail": detail})
+
+        def loadable(n):
+            need = NEEDS.get(n)
+            return need is None or lo[need]
+        # expected selection
+        stage = None
+        expected = None
+        may_die = False
+        if pre_names:
+            stage = "preimport"
+            expected = set(pre_names)
+        elif case["env"] in DOC_ORDER:
+            stage = "env"
+            if loadable(case["env"]):
+                expected = {case["env"]}
+            else:
+                may_die = True
+        else:
+            stage = "auto"
+            if case["ipython"]:
+                expected = {"nobackend"}
+            else:
+                expected = {next(n for n in DOC_ORDER if loadable(n))}
+        got = imported[0] if imported else None
+        if may_die:
+            if got is not None:
+                add("silent_fallback", "PYSNARK_BACKEND=%s cannot be loaded but the runtime came up with %s" % (
+                    case["env"], got["backend_name"]), name=case["env"])
+            elif "Traceback" not in r["stderr"] and "Error" not in r["stderr"]:
+                add("not_loud", "unloadable named backend: interpreter died without a traceback", name=case["env"])
+        elif got is None:
+            add("import_failed", "runtime import failed: rc=%r %s" % (
+                r["rc"], (r["stderr"].strip().splitlines() or [""])[-1][:200]), stage=stage)
+        else:
+            nm = got["backend_name"]
+            if nm not in expected:
+                add("wrong_backend", "stage %s: expected %s, runtime selected %s" % (stage, sorted(expected), nm),
+                    stage=stage, got=nm, want=sorted(expected)[0])
+            if case["env"] is not None and case["env"] not in DOC_ORDER and stage == "auto":
+                if "unknown backend" not in r["stdout"] + r["stderr"]:
+                    add("unknown_name_not_reported", "PYSNARK_BACKEND=%s: no message before falling back" % case["env"])
+            # the name identifies what is in effect
+            if nm in NAME_TABLE:
+                mod, modulus = NAME_TABLE[nm]
+                traced = [e for e in ev if e["ev"] == "traced"]
+                if got["module"] != mod:
+                    add("name_ne_backend", "name %s but module in effect is %s" % (nm, got["module"]), name=nm,
+                        field="module")
+                elif got["modulus"] != modulus:
+                    add("name_ne_backend", "name %s but modulus in effect is %s" % (nm, got["modulus"]), name=nm,
+                        field="modulus")
+                elif traced and nm in ("libsnark", "libsnarkgg") and traced[0]["groth"] != (nm == "libsnarkgg"):
+                    add("name_ne_backend", "name %s but use_groth=%r" % (nm, traced[0]["groth"]), name=nm,
+                        field="groth")
+                if traced:
+                    t = traced[0]
+                    ncons = len(t["trace"]["cons"]) if t["trace"] else t["nconstraints"]
+                    if nm != "nobackend" and nm != "qaptools" and ncons != 2:
+                        add("constraints_not_received", "module named by %s holds %r constraints after a 2-constraint "
+                            "program" % (nm, ncons), name=nm)
+                elif r["rc"] != 0:
+                    add("traced_program_failed", "rc=%r %s" % (r["rc"], (r["stderr"].strip().splitlines() or [""])[-1][:160]),
+                        name=nm)
+            else:
+                add("name_ne_backend", "unknown reported name %r" % nm, field="name")
+            missing = [k for k, ok in got["interface"].items() if not ok]
+            if missing:
+                add("interface_incomplete", "backend %s lacks %r" % (nm, missing), name=nm)
+        nt = case["index"]
+        faults = {"env": 1 if case["env"] else 0, "preimport": len(case["pre"]),
+                  "importfail": len(importfail) + (0 if lo["qaptools"] else 1), "ipython": int(case["ipython"])}
+        return {"violations": viol, "digest": E.sha((got, r["rc"], [v["oracle"] for v in viol])),
+                "nontrivial": nt, "events": len(ev), "faults": faults,
+                "probes": {"stage_" + str(stage): 1, "died_loudly": int(may_die and got is None)},
+                "sigs": [E.sha((stage, got["backend_name"] if got else None))], "outcome": [r["rc"], got and got["backend_name"]]}
+
+    def shrink_candidates(self, case):
+        if case["pre"]:
+            for i in range(len(case["pre"])):
+                c = copy.deepcopy(case)
+                del c["pre"][i]
+                yield c
+        for k in ("libsnark", "flatbuffers", "qaptools"):
+            if not case["loadable"][k]:
+                c = copy.deepcopy(case)
+                c["loadable"][k] = True
+                yield c
+        if case["ipython"]:
+            c = copy.deepcopy(case)
+            c["ipython"] = False
+            yield c
+
+
+E.register(C19())
+
+
+# ---------------------------------------------------------------------------------------
+PUBLISHED = {
+    "zkinterface": [0x299c867db6c1fdd79dcefa40e4510b9837e60ebb1ce0663dbaa525df65250465,
+                    0x1148aaef609aa338b27dafd89bb98862d8bb2b429aceac47d86206154ffe053d,
+                    0x24febb87fed7462e23f6665ff9a0111f4044c38ee1672c1ac6b0637d34f24907,
+                    0x0eb08f6d809668a981c186beaf6110060707059576406b248e5d9cf6e78b3d3e,
+                    0x07748bc6877c9b82c8b98666ee9d0626ec7f5be4205f79ee8528ef1c4a376fc7],
+    "zkifbellman": [0x2a918b9c9f9bd7bb509331c81e297b5707f6fc7393dcee1b13901a0b22202e18,
+                    0x65ebf8671739eeb11fb217f2d5c5bf4a0c3f210e3f3cd3b08b5db75675d797f7,
+                    0x2cc176fc26bc70737a696a9dfd1b636ce360ee76926d182390cdb7459cf585ce,
+                    0x4dc4e29d283afd2a491fe6aef122b9a968e74eff05341f3cc23fda1781dcb566,
+                    0x03ff622da276830b9451b88b85e6184fd6ae15c8ab3ee25a5667be8592cce3b1],
+}
+
+_CONST_CACHE = {}
+
+
+def poseidon_table():
+    """poseidon_constants as data, read from /repo (pure data module)."""
+    if "t" not in _CONST_CACHE:
+        ns = {}
+        with open(os.path.join(W.REPO, "pysnark", "poseidon_constants.py")) as f:
+            exec(compile(f.read(), "poseidon_constants", "exec"), ns)
+        _CONST_CACHE["t"] = ns["poseidon_constants"]
+    return _CONST_CACHE["t"]
+
+
+def ref_permute(state, c, p):
+    R_F, R_P, t, a, rc, M = c["R_F"], c["R_P"], c["t"], c["a"], c["round_constants"], c["matrix"]
+
+    def mix(s):
+        return [sum(M[i][k] * s[k] for k in range(t)) % p for i in range(t)]
+    r = 0
+    for _ in range(R_F // 2):
+        state = mix([pow((x + k) % p, a, p) for x, k in zip(state, rc[r])])
+        r += 1
+    for _ in range(R_P):
+        state = [(x + k) % p for x, k in zip(state, rc[r])]
+        state[0] = pow(state[0], a, p)
+        state = mix(state)
+        r += 1
+    for _ in range(R_F // 2):
+        state = mix([pow((x + k) % p, a, p) for x, k in zip(state, rc[r])])
+        r += 1
+    return state
+
+
+def ref_sponge(msg, c, p):
+    t = c["t"]
+    rate = t - 1
+    padded = list(msg) + [1]
+    while len(padded) % rate:
+        padded.append(0)
+    state = [0] * t
+    for i in range(0, len(padded), rate):
+        blk = padded[i:i + rate]
+        state = [state[0]] + [(s + b) % p for s, b in zip(state[1:], blk)]
+        state = ref_permute(state, c, p)
+    return state[1:]
+
+
+def params_digest(c):
+    return E.sha((c["R_F"], c["R_P"], c["t"], c["a"], c["round_constants"], c["matrix"]))
+
+
+C20_BODY = r'''
+import hashlib
+def _pd(ph):
+    return {"R_F": ph.R_F, "R_P": ph.R_P, "t": ph.t, "a": ph.a, "rc": ph.round_constants, "matrix": ph.matrix}
+try:
+    import pysnark.poseidon_hash as _ph
+except NotImplementedError as _e:
+    _side({"ev": "poseidon_unavailable", "msg": str(_e)})
+    _ph = None
+if _ph is not None:
+    _side({"ev": "poseidon_params", "params": _pd(_ph)})
+    if _rt.backend_name != "nobackend":
+        for _vec in _cfg["perm_inputs"]:
+            _n0 = _rt.num_constraints
+            _out = _ph.permute([PrivVal(v) for v in _vec])
+            _side({"ev": "permute", "inp": _vec, "out": [x.value for x in _out], "ncons": _rt.num_constraints - _n0})
+        for _msg in _cfg["messages"]:
+            _n0 = _rt.num_constraints
+            _out = _ph.poseidon_hash([PrivVal(v) for v in _msg])
+            _side({"ev": "hash", "msg": _msg, "out": [x.value for x in _out], "ncons": _rt.num_constraints - _n0})
+if _rt.backend_name != "nobackend":
+    from pysnark.ggh_hash import ggh_hash, ggh_hash_plain
+    for _bits in _cfg["bitstrings"]:
+        _n0 = _rt.num_constraints
+        _t = ggh_hash([PrivVal(b) for b in _bits])
+        _side({"ev": "ggh", "bits": _bits, "traced": _t.value, "plain": ggh_hash_plain(_bits),
+               "ncons": _rt.num_constraints - _n0, "modulus": _b.get_modulus()})
+_rt.autoprove = False
+'''
+
+
+class C20(TraceCheck):
+    name = "C20"
+    prop = "C20"
+    props = ()
+    budget = {"quick": 96, "thorough": 2400}
+    components = REAL_EXIT + "; the reference Poseidon permutation/sponge and subset-sum are plain-integer code in " \
+        "the checker, with round constants and matrices read from pysnark/poseidon_constants.py as data"
+    run_cap_s = 600
+    PATHS = ["env", "preimport", "auto", "env+preimport_other"]
+    BACKENDS = ["zkinterface", "zkifbellman", "zkifbulletproofs", "snarkjs", "qaptools", "nobackend"]
+    rule = ("one fresh interpreter per (how the backend got selected: PYSNARK_BACKEND, pre-import, auto-detection, "
+            "pre-import overriding a different PYSNARK_BACKEND) x backend/field x seeded inputs: the parameter set "
+            "the hash module ends up with must be the table entry of runtime.backend_name (unavailable if there "
+            "is none; the toy set only for nobackend); traced permutation and sponge (messages of 0..3 blocks, "
+            "values across the field) equal the checker's plain-integer reference and the published vectors; "
+            "constraint counts equal across inputs of equal length; traced subset-sum hash equals the plain one. "
+            "non-trivial = distinct (selection path, backend, inputs) judged")
+
+    def gen(self, rng, i, tier):
+        path = self.PATHS[i % len(self.PATHS)]
+        backend = self.BACKENDS[(i // len(self.PATHS)) % len(self.BACKENDS)]
+        p = W.PRIMES.get(backend, W.BN254)
+
+        def val():
+            u = rng.random()
+            if u < 0.4:
+                return rng.randrange(0, 10)
+            if u < 0.6:
+                return rng.choice([p - 1, p - 2, (p - 1) // 2])
+            return rng.randrange(p)
+        perm = [[0, 1, 2, 3, 4], [val() for _ in range(5)]]
+        L = rng.choice([0, 1, 3, 4, 5, 8, 9, 12])
+        messages = [[val() for _ in range(L)], [val() for _ in range(L)]]
+        if tier == "thorough":
+            messages.append([val() for _ in range(rng.randrange(0, 13))])
+        bits = [[rng.randrange(2) for _ in range(rng.choice([1, 8, 33]))] for _ in range(2)]
+        other = rng.choice([b for b in self.BACKENDS if b != backend])
+        return {"path": path, "backend": backend, "other": other, "perm_inputs": perm, "messages": messages,
+                "bitstrings": bits}
+
+    def run(self, case):
+        backend, path = case["backend"], case["path"]
+        env = X.child_env(None, stubs=True)
+        cfg = {"perm_inputs": case["perm_inputs"], "messages": case["messages"], "bitstrings": case["bitstrings"],
+               "preimport": [], "importfail": []}
+        if path == "env":
+            env["PYSNARK_BACKEND"] = backend
+        elif path == "preimport":
+            cfg["preimport"] = [NAME_TABLE[backend][0]]
+        elif path == "env+preimport_other":
+            env["PYSNARK_BACKEND"] = case["other"]
+            cfg["preimport"] = [NAME_TABLE[backend][0]]
+        else:  # auto-detection: make `backend` the first loadable one
+            if backend == "snarkjs":
+                env["QAPTOOLS_BIN"] = "/nonexistent-qaptools-bin"
+            elif backend == "qaptools":
+                pass
+            elif backend == "nobackend":
+                cfg["ipython"] = True
+            else:
+                # zkinterface variants are never reached by auto-detection (snarkjs is always loadable);
+                # make snarkjs the detected backend instead
+                env["QAPTOOLS_BIN"] = "/nonexistent-qaptools-bin"
+        r = X.run_child(C20_BODY, cfg, env, timeout=500)
+        if r["rc"] == "timeout":
+            raise W.HarnessError("child timed out")
+        ev = r["events"]
+        imported = [e for e in ev if e["ev"] == "imported"]
+        if not imported:
+            raise W.HarnessError("runtime import failed: " + r["stderr"][-400:])
+        name = imported[0]["backend_name"]
+        table = poseidon_table()
+        p = W.PRIMES.get(name, None)
+        viol = []
+        site0 = {"path": path, "backend": name}
+
+        def add(oracle, detail, **extra):
+            s = dict(site0)
+            s.update(extra)
+            if not any(v["oracle"] == oracle and v["site"] == s for v in viol):
+                viol.append({"property": "C20", "oracle": oracle, "site": s, "detail": detail})
+        params = [e for e in ev if e["ev"] == "poseidon_params"]
+        unavailable = [e for e in ev if e["ev"] == "poseidon_unavailable"]
+        if r["rc"] != 0 and not params and not unavailable:
+            add("hash_module_failed", "rc=%r %s" % (r["rc"], (r["stderr"].strip().splitlines() or [""])[-1][:200]))
+        c = None
+        if params:
+            got = params[0]["params"]
+            gd = E.sha((got["R_F"], got["R_P"], got["t"], got["a"], got["rc"], got["matrix"]))
+            which = [k for k in table if params_digest(table[k]) == gd]
+            if name in table:
+                if gd != params_digest(table[name]):
+                    add("wrong_parameters", "backend %s selected through %s uses the parameter set of %s" % (
+                        name, path, which or "nobody"), uses=(which or ["unknown"])[0])
+                c = table[name]
+            else:
+                add("wrong_parameters", "backend %s has no registered parameter set but the hash module runs with "
+                    "the set of %s" % (name, which or "nobody"), uses=(which or ["unknown"])[0])
+        elif unavailable and name in table:
+            add("wrong_parameters", "backend %s has a registered parameter set but the hash module refused to "
+                "load: %s" % (name, unavailable[0]["msg"]), uses="none")
+        nt = []
+        if c is not None and p is not None and not viol:
+            counts = {}
+            for e in ev:
+                if e["ev"] == "permute":
+                    want = ref_permute([v % p for v in e["inp"]], c, p)
+                    if [v % p for v in e["out"]] != want:
+                        add("permutation_ne_reference", "permute(%r...) differs from the plain-integer reference" % (
+                            e["inp"][:2],))
+                    if e["inp"] == [0, 1, 2, 3, 4] and name in PUBLISHED and [v % p for v in e["out"]] != PUBLISHED[name]:
+                        add("published_vector", "permute([0,1,2,3,4]) does not reproduce the published vector")
+                    counts.setdefault(("perm", 5), set()).add(e["ncons"])
+                    nt.append(E.sha((path, name, e["inp"])))
+                elif e["ev"] == "hash":
+                    want = ref_sponge([v % p for v in e["msg"]], c, p)
+                    if [v % p for v in e["out"]] != want:
+                        add("sponge_ne_reference", "poseidon_hash of a %d-element message differs from the reference "
+                            "(10* padding to a multiple of t-1)" % len(e["msg"]), length=len(e["msg"]) % (c["t"] - 1))
+                    counts.setdefault(("hash", len(e["msg"])), set()).add(e["ncons"])
+                    nt.append(E.sha((path, name, e["msg"])))
+            for k, s in counts.items():
+                if len(s) > 1:
+                    add("constraint_count_depends_on_input", "%s: %r constraints for inputs of equal length" % (k, sorted(s)))
+        for e in ev:
+            if e["ev"] == "ggh":
+                if e["traced"] % e["modulus"] != e["plain"] % e["modulus"]:
+                    add("ggh_ne_plain", "traced subset-sum hash differs from the plain one on %d bits" % len(e["bits"]))
+                nt.append(E.sha((path, name, e["bits"])))
+        return {"violations": viol, "digest": E.sha((name, [(e["ev"], e.get("out"), e.get("traced")) for e in ev],
+                                                     [v["oracle"] for v in viol])),
+                "nontrivial": None, "nontrivial_list": nt or [E.sha((path, name))], "events": len(ev),
+                "faults": {"select:" + path: 1}, "probes": {"backend_" + name: 1,
+                                                              "poseidon_unavailable": int(bool(unavailable))},
+                "sigs": [E.sha((path, name))], "outcome": [r["rc"], name]}
+
+    def shrink_candidates(self, case):
+        for k in ("messages", "perm_inputs", "bitstrings"):
+            if len(case[k]) > 1:
+                c = copy.deepcopy(case)
+                c[k] = c[k][:1]
+                yield c
+            if case[k]:
+                c = copy.deepcopy(case)
+                c[k] = []
+                yield c
+
+
+E.register(C20())
